@@ -38,6 +38,7 @@ type g08Grammar struct {
 	nested      bool
 	cancellable bool
 	recursive   bool
+	optimize    bool // optimizeTables: the parser (and its lookahead() copy) decodes the compressed tables
 	text        string
 }
 
@@ -75,7 +76,7 @@ func g08Tree(r *vRand, npred int, path []g08Lit, used map[int]bool, budget *int)
 }
 
 func g08Gen(r *vRand, idx int) *g08Grammar {
-	g := &g08Grammar{idx: idx, npred: 2 + r.Intn(2), nested: idx%2 == 0, cancellable: idx%4 < 2, recursive: idx%3 != 0}
+	g := &g08Grammar{idx: idx, npred: 2 + r.Intn(2), nested: idx%2 == 0, cancellable: idx%4 < 2, recursive: idx%3 != 0, optimize: idx%5 < 2}
 	if g.nested {
 		// lookaheads inside lookaheads are only evaluated by parsers generated with
 		// recursiveLookaheads = true (the meaning of that option)
@@ -89,7 +90,7 @@ func g08Gen(r *vRand, idx int) *g08Grammar {
 		g.alts[i], g.alts[j] = g.alts[j], g.alts[i]
 	}
 	var sb strings.Builder
-	fmt.Fprintf(&sb, "language p%d(go);\n\nlang = \"p%d\"\npackage = \"vmod/p%d\"\neventBased = true\ncancellable = %v\nrecursiveLookaheads = %v\n\n:: lexer\n\nWhiteSpace: /[ \\t\\r\\n]/ (space)\n\n'x': /x/\n';': /;/\n", idx, idx, idx, g.cancellable, g.recursive)
+	fmt.Fprintf(&sb, "language p%d(go);\n\nlang = \"p%d\"\npackage = \"vmod/p%d\"\neventBased = true\ncancellable = %v\nrecursiveLookaheads = %v\noptimizeTables = %v\n\n:: lexer\n\nWhiteSpace: /[ \\t\\r\\n]/ (space)\n\n'x': /x/\n';': /;/\n", idx, idx, idx, g.cancellable, g.recursive, g.optimize)
 	for _, l := range g08Letters[:len(g.alts)] {
 		fmt.Fprintf(&sb, "'%s': /%s/\n", l, l)
 	}
@@ -221,7 +222,7 @@ func init() {
 `
 
 func TestVerifC08Generated(t *testing.T) {
-	ck := vNew("C08/generated-parsers", "seeded grammars with 2..3 predicates and 2..5 mutually exclusive alternatives (leaves of a random decision tree, shuffled), decided in applyRule() or nested in lookaheadRule(), options cancellable x recursiveLookaheads; every statement 'x <letter> [p] [q] [r] ;'", false,
+	ck := vNew("C08/generated-parsers", "seeded grammars with 2..3 predicates and 2..5 mutually exclusive alternatives (leaves of a random decision tree, shuffled), decided in applyRule() or nested in lookaheadRule(), options cancellable x recursiveLookaheads x optimizeTables; every statement 'x <letter> [p] [q] [r] ;'", false,
 		"GenerateFile", "go_parser.go.tmpl:applyRule", "go_parser.go.tmpl:lookaheadRule", "go_parser.go.tmpl:lookahead", "lalr.newLookaheadRule")
 	base := os.Getenv("VERIF_TMP")
 	if base == "" {
@@ -350,7 +351,7 @@ func TestVerifC08Generated(t *testing.T) {
 		for k, src := range inputs[g.idx] {
 			ck.Case(true)
 			if got[g.idx][k] != want[g.idx][k] {
-				ck.Failf(map[string]interface{}{"grammar": g.text, "input": src}, "generated parser (nested=%v cancellable=%v recursiveLookaheads=%v, %d alternatives over %d predicates) reports %q as %s, the alternative whose predicates hold makes it %s", g.nested, g.cancellable, g.recursive, len(g.alts), g.npred, src, got[g.idx][k], want[g.idx][k])
+				ck.Failf(map[string]interface{}{"grammar": g.text, "input": src}, "generated parser (nested=%v cancellable=%v recursiveLookaheads=%v optimizeTables=%v, %d alternatives over %d predicates) reports %q as %s, the alternative whose predicates hold makes it %s", g.nested, g.cancellable, g.recursive, g.optimize, len(g.alts), g.npred, src, got[g.idx][k], want[g.idx][k])
 				break
 			}
 		}
